@@ -45,6 +45,10 @@ def run_cases(cases, res, stratum):
             # an explicit prefix argument wins over the configured one, the empty prefix included
             xe = A.mk(fx, np, s, n, nf, code); xe.config.bin_prefix = c.get('pbc', '0b'); xe.config.hex_prefix = c.get('phc', '0x')
             obs['explicit_over_cfg'] = (xe.bin(prefix=''), xe.bin(prefix='', frac_dot=True), xe.bin(prefix='b'), xe.hex(prefix=''), xe.hex(prefix='X'))
+            # a configuration built from a template configuration with prefixes of its own given explicitly: the explicit ones are the selected ones
+            house = fx.Config(bin_prefix='0b', hex_prefix='0x')
+            xt = fx.Fxp(code, s, n, nf, raw=True, config=fx.Config(template=house, bin_prefix=c.get('pbc', 'b'), hex_prefix=c.get('phc', 'h')))
+            obs['template_cfg'] = (xt.bin(), xt.hex())
             # every prefix the configuration accepts without a warning renders a string that parses back (raw mode; any word length)
             cfgrt = {}
             if n >= 2:
@@ -109,6 +113,8 @@ def run_cases(cases, res, stratum):
         want_exp = (py_bin(n, code), insert_point(py_bin(n, code), nf), 'b' + py_bin(n, code), py_hex(n, code), 'X' + py_hex(n, code))
         if tuple(obs['explicit_over_cfg']) != want_exp:
             res.fail(c, 'C11: an explicit prefix argument (the empty one included) does not win over the configured prefix', expected=want_exp, got=obs['explicit_over_cfg']); continue
+        if tuple(obs['template_cfg']) != (c.get('pbc', 'b') + py_bin(n, code), c.get('phc', 'h') + py_hex(n, code)):
+            res.fail(c, 'C11: the prefixes given explicitly to a configuration built from a template configuration are not the ones rendered', expected=(c.get('pbc', 'b') + py_bin(n, code), c.get('phc', 'h') + py_hex(n, code)), got=obs['template_cfg']); continue
         for k in ('bin', 'bin_dot', 'hex', 'hex_default', 'base', 'bin_prefix_true', 'hex_prefix_true', 'hex_nopad', 'base2_dot', 'bin_cfg', 'hex_cfg', 'hex_noprefix'):
             if str(obs[k]) != want[k]:
                 res.fail(c, 'C11: %s is not the faithful image of the stored code' % k, expected=want[k], got=str(obs[k])); bad = True; break
